@@ -318,6 +318,7 @@ def run(prop, tier_):
     cases = scases + ccases + acases
     cases.sort(key=lambda c: json.dumps(c["feat"]))
     results = run_pv(cases, jobs=12, tag=prop)
+    results, _ = rerun_noisy(cases, results, tag=prop + "r")
     stats, samples = collections.Counter(), []
     # sequential expectation of the model vs the real outcome (evidence; disagreement with a failed
     # postcondition is already a violation, otherwise it is reported as model drift)
